@@ -5,7 +5,7 @@ from typing import Any, Callable, Dict, List, Type
 from spec_classes.errors import FrozenInstanceError
 from spec_classes.methods.base import AttrMethodDescriptor
 from spec_classes.types import MISSING, Attr
-from spec_classes.utils.mutation import mutate_value, protect_via_deepcopy
+from spec_classes.utils.mutation import mutate_value, peek_attr, protect_via_deepcopy
 from spec_classes.utils.type_checking import (
     check_type,
     type_instantiate,
@@ -69,7 +69,7 @@ class CollectionAttrMutator(metaclass=ABCMeta):
                 raise FrozenInstanceError(
                     f"Cannot mutate attribute `{self.attr_spec.name}` of frozen spec class `{instance.__class__.__name__}`."
                 )
-            collection = getattr(instance, self.attr_spec.name, MISSING)
+            collection = peek_attr(instance, self.attr_spec.name, inplace)
         if collection is not MISSING and not inplace:
             collection = protect_via_deepcopy(collection)
         self.collection = collection
